@@ -5,6 +5,7 @@ import LncModel.Facts.Generated
 import LncModel.Queue
 import LncModel.TraceCheck
 import LncModel.Chunk
+import LncModel.Endpoint
 /-
   Line-protocol driver: one operation per input line, one canonical result per
   output line.  Imports model files only (no Mathlib, no proofs) so it links as
@@ -117,6 +118,25 @@ def pureStep (toks : List String) : String :=
     match m.toNat?, (budgets.splitOn ",").mapM String.toNat?, parseMsgs msgs with
     | some m, some bs, some ms => showMsgs (recvCalls bs ⟨ms.flatMap (split m), []⟩)
     | _, _, _ => "bad-op"
+  | ["ep.adopt", n] =>
+    match n.toNat? with
+    | some n => showOutcome (fun (st : EpState) => s!"{st.q.s}") (adoptN n)
+    | none => "bad-op"
+  | ["ep.step", s, b, t, r, hex] =>
+    match s.toNat?, b.toNat?, t.toNat?, r.toNat?, bytesOfHex hex with
+    | some s, some b, some t, some r, some bytes =>
+      match dataPhaseStep (Lnc.Facts.guard_DATA.getD 0) ⟨⟨s, b, t⟩, r⟩ bytes with
+      | .ok (.closed _) => "closed"
+      | .ok (.continue st reply d) =>
+        let rs := match reply with
+          | some (.ack x) => s!"ack:{x}"
+          | some (.nack x) => s!"nack:{x}"
+          | _ => "none"
+        let ds := match d with | some pl => hexOrDash pl | none => "none"
+        s!"cont {st.q.base} {st.q.top} {st.recvSeq} {rs} {ds}"
+      | .err e => "err " ++ e
+      | .panic _ => "panic"
+    | _, _, _, _, _ => "bad-op"
   | ["q.mks", n] => (n.toNat?).elim "bad-op" fun n => toString (mkS n)
   | _ => "bad-op"
 
